@@ -130,7 +130,7 @@ def run(ck, tier, ps):
     if first_oracle:
         label, case, i, ln = first_oracle
         ck.violation(TAG + "_oracle", replay_content(prop, "%s: %s" % (label, ln), case, i),
-                     "by-name sink lookup is not idempotent on the real SinkManager: %s (%d failing cases; op sequence in the replay file)" % (ln[:300], cov["oracle_hits"]))
+                     "property fails on the real code: by-name sink lookup is not idempotent on the real SinkManager: %s (%d failing cases; op sequence in the replay file)" % (ln[:300], cov["oracle_hits"]))
     if first_abort:
         label, case, what = first_abort
         ck.violation(TAG + "_abort", replay_content(prop, "%s: %s — the call that died is the last line" % (label, what), case), what)
